@@ -358,6 +358,7 @@ outer:
 
 	ws, err := vx.reportWinsize()
 	if err != nil {
+		vx.Close()
 		return nil, err
 	}
 	if ws.XPixel == 0 || ws.YPixel == 0 {
